@@ -20,9 +20,17 @@ package bufmodule
 //
 //@ trusted pure interface Digest
 //@ trusted pure interface bufcas.Digest
-//@ trusted func getFilesDigestForB5Digest(ctx, bucketWithStorageMatcherApplied) (r, err)
-//@   modifies heap, ghost.fail, ghost.wfail, ghost.sinkPaths, ghost.sinkBuckets
+// getFilesDigestForB5Digest (verified against its body; was assumed): every object the walk reaches becomes exactly
+// one file node carrying the object's own path and the digest of its content; a failing hash / invalid path /
+// duplicate path is reported; the digest is that of the manifest of those nodes.
+//@ trusted pure interface storage.ReadObject
+//@ func getFilesDigestForB5Digest(ctx, bucketWithStorageMatcherApplied) (r, err)
+//@   property C08
+//@   modifies heap, ghost.fail, ghost.wfail, ghost.sinkPaths, ghost.sinkBuckets, ghost.lastPutOptions
 //@   ensures err == nil ==> r != nil
+//@   closure 0 ensures one-node-per-object: err == nil ==> len(fileNodes) == old(len(fileNodes)) + 1 && cast(*bufcas.fileNode, fileNodes[len(fileNodes) - 1]).path == readObject.Path() && cast(*bufcas.fileNode, fileNodes[len(fileNodes) - 1]).digest != nil
+//@   closure 0 ensures failure-adds-nothing: err != nil ==> fileNodes == old(fileNodes)
+//@   closure 0 ensures earlier-nodes-kept: forall j int :: 0 <= j && j < old(len(fileNodes)) ==> fileNodes[j] == old(fileNodes)[j]
 //@ trusted func bufcas.NewDigestForContent(reader, options) (r, err)
 //@   modifies heap
 //@   ensures err == nil ==> r != nil
@@ -32,13 +40,42 @@ package bufmodule
 // dependency digests (all of type b5), joined by newlines. Checked at the point the content is handed to the hash.
 //@ func getB5DigestForBucketAndDepDigests(ctx, bucketWithStorageMatcherApplied, depDigests) (r, err)
 //@   property C08 C02
-//@   modifies heap, ghost.fail, ghost.wfail, ghost.sinkPaths, ghost.sinkBuckets
+// (ghost.lastPutOptions: storage.WalkReadObjects, reached through the now verified getFilesDigestForB5Digest, lists it)
+//@   modifies heap, ghost.fail, ghost.wfail, ghost.sinkPaths, ghost.sinkBuckets, ghost.lastPutOptions
 //@   closure 0 ensures err == nil ==> digest.Type() == DigestTypeB5 && r == digest.String()
 //@   assert before "digestOfDigests, err := bufcas.NewDigestForContent" files-digest-first: len(digestStrings) == 1 + len(depDigests) && digestStrings[0] == filesDigest.String()
 //@   assert before "digestOfDigests, err := bufcas.NewDigestForContent" deps-sorted: forall a int, b int :: 1 <= a && a < b && b < len(digestStrings) ==> digestStrings[a] <= digestStrings[b]
 //@   assert before "digestOfDigests, err := bufcas.NewDigestForContent" deps-all-b5: forall j int :: 0 <= j && j < len(depDigests) ==> depDigests[j].Type() == DigestTypeB5
 //@   assert before "digestOfDigests, err := bufcas.NewDigestForContent" deps-complete: forall j int :: 0 <= j && j < len(depDigests) ==> (exists a int :: 1 <= a && a < len(digestStrings) && digestStrings[a] == depDigests[j].String())
 //@   assert before "digestOfDigests, err := bufcas.NewDigestForContent" deps-only: forall a int :: 1 <= a && a < len(digestStrings) ==> (exists j int :: 0 <= j && j < len(depDigests) && digestStrings[a] == depDigests[j].String())
+//
+// C08: which files are module files (and therefore hashed). The documentation file is the FIRST of buf.md,
+// README.md, README.markdown (table n_orderedDocFilePaths; the clauses that depend on the literal carry it as hypothesis)
+// that the bucket has (Stat is a non-deterministic sink in the model, so "first that
+// exists" is stated as: every earlier candidate was asked before, nothing but the candidates is asked, and the
+// answer is a candidate or ""); the matcher accepts exactly: every .proto file, LICENSE, and that ONE chosen
+// documentation file (the other candidates are not module files).
+//@ trusted pure interface storage.Matcher
+//@ table n_orderedDocFilePaths {C08} of orderedDocFilePaths
+//@   ensures documented-order: len(orderedDocFilePaths) == 3 && orderedDocFilePaths[0] == "buf.md" && orderedDocFilePaths[1] == "README.md" && orderedDocFilePaths[2] == "README.markdown"
+//@ func getDocFilePathForStorageReadBucket(ctx, bucket) (r)
+//@   property C08
+//@   modifies ghost.sinkPaths, ghost.sinkBuckets
+//@   ensures a-candidate-or-none: len(orderedDocFilePaths) == 3 && orderedDocFilePaths[0] == "buf.md" && orderedDocFilePaths[1] == "README.md" && orderedDocFilePaths[2] == "README.markdown" ==> r == "" || r == "buf.md" || r == "README.md" || r == "README.markdown"
+//@   ensures chosen-was-asked: r != "" ==> r in ghost.sinkPaths
+//@   ensures earlier-candidates-asked-first: len(orderedDocFilePaths) == 3 && orderedDocFilePaths[0] == "buf.md" && orderedDocFilePaths[1] == "README.md" && orderedDocFilePaths[2] == "README.markdown" ==> (r == "README.md" ==> "buf.md" in ghost.sinkPaths) && (r == "README.markdown" ==> "buf.md" in ghost.sinkPaths && "README.md" in ghost.sinkPaths) && (r == "" ==> "buf.md" in ghost.sinkPaths && "README.md" in ghost.sinkPaths && "README.markdown" in ghost.sinkPaths)
+//@   ensures only-candidates-asked: len(orderedDocFilePaths) == 3 && orderedDocFilePaths[0] == "buf.md" && orderedDocFilePaths[1] == "README.md" && orderedDocFilePaths[2] == "README.markdown" ==> forall q string :: q in ghost.sinkPaths && !(q in old(ghost.sinkPaths)) ==> q == "buf.md" || q == "README.md" || q == "README.markdown"
+//@   ensures only-this-bucket: forall b ref :: b in ghost.sinkBuckets && !(b in old(ghost.sinkBuckets)) ==> b == bucket
+//@   loop 0 invariant forall j int :: 0 <= j && j < $i ==> orderedDocFilePaths[j] in ghost.sinkPaths
+//@   loop 0 invariant forall q string :: q in ghost.sinkPaths && !(q in old(ghost.sinkPaths)) ==> (exists j int :: 0 <= j && j < $i && q == orderedDocFilePaths[j])
+//@   loop 0 invariant forall b ref :: b in ghost.sinkBuckets && !(b in old(ghost.sinkBuckets)) ==> b == bucket
+//
+//@ func getStorageMatcher(ctx, bucket) (r)
+//@   property C08
+//@   modifies ghost.sinkPaths, ghost.sinkBuckets
+//@   ensures proto-and-license-are-module-files: r != nil && (forall p string :: normalpath.Ext(p) == ".proto" || p == "LICENSE" ==> r.MatchPath(p))
+//@   ensures at-most-one-doc-file-and-nothing-else: len(orderedDocFilePaths) == 3 && orderedDocFilePaths[0] == "buf.md" && orderedDocFilePaths[1] == "README.md" && orderedDocFilePaths[2] == "README.markdown" ==> forall p string, q string :: r.MatchPath(p) && r.MatchPath(q) && !(normalpath.Ext(p) == ".proto" || p == "LICENSE") && !(normalpath.Ext(q) == ".proto" || q == "LICENSE") ==> p == q && (p == "" || p == "buf.md" || p == "README.md" || p == "README.markdown")
+//@   canary ensures forall p string :: !r.MatchPath(p)
 //
 // C09: every accessor of cached module data verifies the digest first, and the verification accepts only
 // content whose recomputed digest equals the digest pinned by the requesting key.
